@@ -56,6 +56,78 @@ def ofTriples (n : Nat) (tr : List (Nat × Nat × Rat)) : Mat Rat :=
       a.modify t.1 (fun row => row.modify t.2.1 (· + t.2.2))) base
   ⟨n, n, fun i j => (arr.getD i #[]).getD j 0⟩
 
+/-! ### execution device: sparse tabulation of `represent_fine(lv=k, truncate=False, rows=…)`
+
+The model's `representFine` multiplies the (partial) identity of size `N_k` with the dense
+prolongation: `N_k² · N_{k-1}` exact additions per level, which is what makes large 2-D histories
+slow.  The driver tabulates the same matrix with sparse rows (arrays) and hands it to the model's
+`levelBlocksWith`; on moderate sizes it is compared entry by entry with `representFine` (a mismatch
+is answered with `driver-fastpath-mismatch`, never silently used). -/
+
+abbrev SpRow := Array (Nat × Rat)
+
+/-- number of active functions on levels `< k` (column offset of block `k`) -/
+def Pyiga.Transfer.HSp.ntb' (H : HSp Rat) (k : Nat) : Nat := if k = 0 then 0 else H.nt (k - 1)
+
+def toSparseRows (A : Mat Rat) : Array SpRow :=
+  (Array.range A.m).map fun i => Id.run do
+    let mut row : SpRow := #[]
+    for j in [0:A.n] do
+      let v := A.f i j
+      if v ≠ 0 then row := row.push (j, v)
+    return row
+
+/-- sparse `P · T` for sparse rows `P` (columns index rows of `T`) -/
+def spMul (P : Array SpRow) (T : Array SpRow) (ncols : Nat) : Array SpRow :=
+  P.map fun prow => Id.run do
+    if prow.isEmpty then return #[]
+    let mut acc : Array Rat := Array.replicate ncols 0
+    let mut touched : Array Nat := #[]
+    for (c, v) in prow do
+      for (c2, t) in T.getD c #[] do
+        if acc.getD c2 0 == 0 then touched := touched.push c2
+        acc := acc.modify c2 (· + v * t)
+    let cols := touched.qsort (· < ·)
+    let mut out : SpRow := #[]
+    let mut last : Option Nat := none
+    for c2 in cols do
+      if last != some c2 then
+        let v := acc.getD c2 0
+        if v ≠ 0 then out := out.push (c2, v)
+        last := some c2
+    return out
+
+/-- sparse tabulation of `H.representFine lv false (some rows) false` -/
+def repFineFast (H : HSp Rat) (lv : Nat) (rows : List Nat) : Mat Rat := Id.run do
+  let N := H.Nl lv
+  let ncols := H.ntb' lv + (H.ir lv).length
+  let inv := invArr N rows
+  let mut P : Array SpRow := (Array.range N).map fun i => if (pos? inv i).isSome then #[(i, 1)] else #[]
+  let mut out : Array (Array Rat) := Array.replicate N (Array.replicate ncols 0)
+  let mut k := lv
+  let mut fuel := lv + 1
+  while fuel > 0 do
+    fuel := fuel - 1
+    -- block k: columns `actv lv k` at offset `ntb k`
+    let cols := H.actv lv k
+    let cinv := invArr (H.Nl k) cols
+    let off := H.ntb' k
+    for i in [0:N] do
+      for (c, v) in P.getD i #[] do
+        match pos? cinv c with
+        | some q => out := out.modify i (fun r => r.setIfInBounds (off + q) v)
+        | none => pure ()
+    if k = 0 then fuel := 0
+    else
+      let T := toSparseRows (H.Tl (k - 1))
+      P := spMul P T (H.Nl (k - 1))
+      k := k - 1
+  let arr := out
+  return ⟨N, ncols, fun i j => (arr.getD i #[]).getD j 0⟩
+
+def matEqOn (A B : Mat Rat) : Bool :=
+  A.m == B.m && A.n == B.n && (List.range A.m).all fun i => (List.range A.n).all fun j => A.f i j == B.f i j
+
 def request : P String := do
   let op ← tok
   match op with
@@ -67,7 +139,14 @@ def request : P String := do
       let ilx := (List.range L).map X.interlevelIx
       let ta := (List.range L).map X.toAssemble
       let nb := (List.range L).map X.neighborsCan
-      let Ahb := ofTriples H.numdofs X.cooTriples
+      -- representation matrices per level: sparse tabulation, cross-checked against the model on moderate sizes
+      let Is := (List.range L).map fun k => repFineFast H k (ta.getD k [])
+      let okFast := (List.range L).all fun k =>
+        let cost := H.Nl k * H.Nl k * (if k = 0 then 1 else H.Nl (k - 1))
+        if cost ≤ 4000000 then matEqOn (Is.getD k (Mat.zero 0 0)) (H.representFine k false (some (ta.getD k [])) false).freeze else true
+      if !okFast then pure "driver-fastpath-mismatch" else
+      let IsArr := Is.toArray
+      let Ahb := ofTriples H.numdofs (X.cooTriplesWith fun k => IsArr.getD k (Mat.zero 0 0))
       let M := X.assembleWith Ahb tr
       pure (" | ".intercalate [showList showNats ilx, showList showNats ta, showList showNats nb, showMat M])
   | "hfun" => do
